@@ -64,6 +64,9 @@ func (fr *Frame) specEnv(st *State, li *loopInfo) *Env {
 	if v.lockBase != nil {
 		old = v.lockBase
 	}
+	if fr.entry != nil {
+		old = fr.entry
+	}
 	var extra []string
 	env := &Env{v: v, fr: fr, st: st, old: old, li: li, bound: map[string]specVal{}, lets: map[string]*Node{}, extra: &extra, pkg: fr.fn.Pkg.Pkg}
 	if fr.fc != nil {
@@ -720,6 +723,90 @@ func (e *Env) evalCall(n *Node) specVal {
 				}
 			}
 			e.fail("visited(): the loop is not a map range")
+		case "ntok", "rpos":
+			x := e.eval(args[0])
+			_, sn, sp := v.streamKeys()
+			k := sn
+			if fn.Name == "rpos" {
+				k = sp
+			}
+			return specVal{t: sel(v.heap(e.st, k), e.streamIDOf(x)), typ: tInt}
+		case "tokkind", "tokval":
+			x := e.eval(args[0])
+			i := e.eval(args[1])
+			stk, _, _ := v.streamKeys()
+			acc := "tk.kind"
+			if fn.Name == "tokval" {
+				acc = "tk.val"
+			}
+			tokT := sel(sel(v.heap(e.st, stk), e.streamIDOf(x)), i.t)
+			if e.pats != nil {
+				if _, isQ := (*e.pats)[i.t]; isQ {
+					// quantified directly over token positions: trigger on any access to that position
+					(*e.pats)[i.t] = append((*e.pats)[i.t], tokT)
+				}
+			}
+			return specVal{t: "(" + acc + " " + tokT + ")", typ: tInt}
+		case "toksame":
+			// toksame(x): tokens written so far (positions below old ntok) are unchanged and ntok did not shrink
+			x := e.eval(args[0])
+			stk, sn, _ := v.streamKeys()
+			id := e.streamIDOf(x)
+			v.smt.n++
+			q := fmt.Sprintf("p!q%d", v.smt.n)
+			return specVal{t: and("(>= "+sel(v.heap(e.st, sn), id)+" "+sel(v.heap(e.old, sn), id)+")",
+				fmt.Sprintf("(forall ((%s Int)) (! (=> (and (<= 0 %s) (< %s %s)) (= (select (select %s %s) %s) (select (select %s %s) %s))) :pattern ((select (select %s %s) %s))))",
+					q, q, q, sel(v.heap(e.old, sn), id), v.heap(e.st, stk), id, q, v.heap(e.old, stk), id, q, v.heap(e.st, stk), id, q)), typ: tBool}
+		case "abs":
+			x := e.eval(args[0])
+			pt, ok := x.typ.Underlying().(*types.Pointer)
+			if !ok {
+				e.fail("abs() needs a pointer to an object")
+			}
+			return specVal{t: sel(v.heap(e.st, v.absKey(pt.Elem())), x.t), typ: tInt}
+		case "blob":
+			x := e.eval(args[0])
+			return specVal{t: sel(v.heap(e.st, v.blobKey()), "(s.arr "+x.t+")"), typ: tInt}
+		case "enc":
+			x := e.eval(args[0])
+			return specVal{t: v.encVal(x.t, x.typ), typ: tInt}
+		case "bloblen":
+			x := e.eval(args[0])
+			return specVal{t: app(v.smt.declareFun("uf!blobLen", []string{"Int"}, "Int"), x.t), typ: tInt}
+		case "oldblobs":
+			// oldblobs(): byte arrays allocated before the reference state keep their blob identity
+			bk := v.blobKey()
+			v.smt.n++
+			q := fmt.Sprintf("a!q%d", v.smt.n)
+			return specVal{t: fmt.Sprintf("(forall ((%s Int)) (! (=> (< %s %s) (= (select %s %s) (select %s %s))) :pattern ((select %s %s))))",
+				q, q, v.alloc(e.old), v.heap(e.st, bk), q, v.heap(e.old, bk), q, v.heap(e.st, bk), q), typ: tBool}
+		case "objkind":
+			// objkind(T): token kind of an object of dependency type T
+			t := e.resolveType(args[0])
+			return specVal{t: fmt.Sprintf("%d", tkObject+v.typeTag(t)), typ: tInt}
+		case "fixedkind":
+			t := e.resolveType(args[0])
+			c, ok := fixedCode(t)
+			if !ok {
+				e.fail("fixedkind(): not a fixed-size type")
+			}
+			return specVal{t: fmt.Sprintf("%d", tkFixed+c), typ: tInt}
+		case "decode":
+			// decode(payload, T): the value of type T carried by a token payload
+			x := e.eval(args[0])
+			t := e.resolveType(args[1])
+			return specVal{t: v.decVal(x.t, t), typ: t, st: e.st}
+		case "deepeq":
+			a, b := e.eval(args[0]), e.eval(args[1])
+			return specVal{t: e.deepEq(a, b, 0), typ: tBool}
+		case "sinceloop":
+			// sinceloop(e): e with old() referring to the state on first arrival at the loop header
+			if e.li == nil || e.li.pre == nil {
+				e.fail("sinceloop() outside a loop invariant")
+			}
+			ne := *e
+			ne.old = e.li.pre
+			return ne.eval(args[0])
 		case "clock":
 			return specVal{t: v.heap(e.st, v.ghostKey("clock", "Int")), typ: types.Typ[types.Int64]}
 		case "fresh":
@@ -846,6 +933,7 @@ var specUFs = map[string]specUF{
 	"OutpointHash":  {"uf!OutpointHash", extType(pkgBitcoin, "Hash32")},
 	"UnixNano":      {"uf!UnixNano", basicType(types.Int64)},
 	"TxHashOf":      {"uf!TxHashOf", extType(pkgBitcoin, "Hash32")},
+	"txinCount":     {"uf!txinCount", basicType(types.Int)},
 }
 
 var _ = ssa.NaiveForm
@@ -899,4 +987,94 @@ func (e *Env) sourceVar(name string, at *ssa.BasicBlock) (specVal, bool) {
 		return specVal{}, false
 	}
 	return specVal{t: val.T, typ: best.X.Type(), st: e.st}, true
+}
+
+func (e *Env) streamIDOf(x specVal) string {
+	if _, ok := x.typ.Underlying().(*types.Interface); ok {
+		return "(i.val " + x.t + ")"
+	}
+	return x.t
+}
+
+// deepEq: structural equality of two values of the same Go type, up to the abstractions of the
+// stream model (objects of dependencies by abstract value, byte slices by blob, nil vs empty
+// slices identified).
+func (e *Env) deepEq(a, b specVal, depth int) string {
+	v := e.v
+	if depth > 6 {
+		e.fail("deepeq: type too deep")
+	}
+	sa, sb := a.st, b.st
+	if sa == nil {
+		sa = e.st
+	}
+	if sb == nil {
+		sb = e.st
+	}
+	t := types.Unalias(a.typ)
+	switch u := t.Underlying().(type) {
+	case *types.Basic:
+		return eq(a.t, b.t)
+	case *types.Pointer:
+		el := u.Elem()
+		nilEq := eq(eq(a.t, "0"), eq(b.t, "0"))
+		if isRefStruct(el) && strings.HasPrefix(pkgPathOf(el), "github.com/tokenized/spynode") {
+			_, st := namedStruct(el)
+			var cs []string
+			for i := 0; i < st.NumFields(); i++ {
+				fa := specVal{t: sel(v.heap(sa, v.fieldKey(el, i)), a.t), typ: st.Field(i).Type(), st: sa}
+				fb := specVal{t: sel(v.heap(sb, v.fieldKey(el, i)), b.t), typ: st.Field(i).Type(), st: sb}
+				cs = append(cs, e.deepEq(fa, fb, depth+1))
+			}
+			return and(nilEq, implies(not(eq(a.t, "0")), and(cs...)))
+		}
+		if isRefStruct(el) && isFlatStruct(el) {
+			return and(nilEq, implies(not(eq(a.t, "0")), eq(v.loadStruct(sa, a.t, el), v.loadStruct(sb, b.t, el))))
+		}
+		if isRefStruct(el) {
+			ak := v.absKey(el)
+			return and(nilEq, implies(not(eq(a.t, "0")), eq(sel(v.heap(sa, ak), a.t), sel(v.heap(sb, ak), b.t))))
+		}
+		return and(nilEq, implies(not(eq(a.t, "0")), eq(v.loadPtr(sa, Val{T: a.t}, el), v.loadPtr(sb, Val{T: b.t}, el))))
+	case *types.Slice:
+		lenEq := eq("(s.len "+a.t+")", "(s.len "+b.t+")")
+		if bt, ok := u.Elem().Underlying().(*types.Basic); ok && bt.Kind() == types.Uint8 {
+			bk := v.blobKey()
+			return and(lenEq, implies("(> (s.len "+a.t+") 0)", eq(sel(v.heap(sa, bk), "(s.arr "+a.t+")"), sel(v.heap(sb, bk), "(s.arr "+b.t+")"))))
+		}
+		if n, ok := types.Unalias(t).(*types.Named); ok && n.Obj().Pkg() != nil && !strings.HasPrefix(n.Obj().Pkg().Path(), "github.com/tokenized/spynode") {
+			if pe, ok := u.Elem().Underlying().(*types.Pointer); ok && isRefStruct(pe.Elem()) && !isFlatStruct(pe.Elem()) || ok && !isRefStruct(pe.Elem()) {
+				// a collection type defined by a dependency, coded as one blob: compared by abstract value
+				f := v.smt.declareFun("uf!absSlice", []string{"Slice"}, "Int")
+				return eq(app(f, a.t), app(f, b.t))
+			}
+		}
+		k := v.elemKey(u.Elem())
+		v.smt.n++
+		q := fmt.Sprintf("d!q%d", v.smt.n)
+		ea := specVal{t: sel(sel(v.heap(sa, k), "(s.arr "+a.t+")"), "(ix (s.off "+a.t+") "+q+")"), typ: u.Elem(), st: sa}
+		eb := specVal{t: sel(sel(v.heap(sb, k), "(s.arr "+b.t+")"), "(ix (s.off "+b.t+") "+q+")"), typ: u.Elem(), st: sb}
+		return and(lenEq, fmt.Sprintf("(forall ((%s Int)) (! (=> (and (<= 0 %s) (< %s (s.len %s))) %s) :pattern ((ix (s.off %s) %s)) :pattern ((ix (s.off %s) %s))))",
+			q, q, q, a.t, e.deepEq(ea, eb, depth+1), a.t, q, b.t, q))
+	case *types.Struct:
+		if isOpaqueNamed(t) {
+			return eq(a.t, b.t)
+		}
+		dt := v.smt.sortOf(t)
+		var cs []string
+		for i := 0; i < u.NumFields(); i++ {
+			fa := specVal{t: fmt.Sprintf("(%s!%s %s)", dt, u.Field(i).Name(), a.t), typ: u.Field(i).Type(), st: sa}
+			fb := specVal{t: fmt.Sprintf("(%s!%s %s)", dt, u.Field(i).Name(), b.t), typ: u.Field(i).Type(), st: sb}
+			cs = append(cs, e.deepEq(fa, fb, depth+1))
+		}
+		return and(cs...)
+	}
+	return eq(a.t, b.t)
+}
+
+func pkgPathOf(t types.Type) string {
+	if n, ok := types.Unalias(t).(*types.Named); ok && n.Obj().Pkg() != nil {
+		return n.Obj().Pkg().Path()
+	}
+	return ""
 }
